@@ -67,6 +67,19 @@ class World:
         shutil.rmtree(self.base, ignore_errors=True)
 
 
+INPROC_DRIVER = """
+import json, sys
+from generator.__main__ import main, setup_logging
+setup_logging()
+runs = json.loads(sys.argv[1])
+for argv in runs[:-1]:
+    try:
+        main(argv)
+    except BaseException:
+        pass  # whether the earlier generation worked is not what is judged
+main(runs[-1])
+"""
+
 FAKE_TOOLS = ["ruff", "black", "isort", "autopep8", "yapf", "rustfmt", "cargo", "dotnet", "csharpier", "clang-format", "prettier", "git", "node", "npx", "dos2unix", "unix2dos", "gofmt"]
 
 
@@ -197,6 +210,10 @@ def run_generator(
         cmd += ["--output-dir", out_dir]
     if test_dir is not None:
         cmd += ["--test-dir", test_dir]
+    if env.get("inproc_before"):
+        # the same interpreter has generated something else before (a long-lived build script calling
+        # generator.__main__.main several times): "number of earlier runs" inside one process
+        cmd = [sys.executable, "-c", INPROC_DRIVER, json.dumps(list(env["inproc_before"]) + [cmd[3:]])]
     try:
         p = subprocess.run(cmd, cwd=str(repo), env=e, capture_output=True, timeout=timeout, stdin=subprocess.DEVNULL)
         rc, so, se = p.returncode, p.stdout, p.stderr
